@@ -47,9 +47,9 @@ func (s Shape) Leaf() string {
 	return s.Simple
 }
 
-func Arr(s Shape) Shape           { return Shape{Array: &s} }
+func Arr(s Shape) Shape             { return Shape{Array: &s} }
 func MapOf(k string, v Shape) Shape { return Shape{Key: k, Map: &v} }
-func Simple(n string) Shape       { return Shape{Simple: n} }
+func Simple(n string) Shape         { return Shape{Simple: n} }
 
 type Builder struct {
 	In  *Interp
